@@ -34,6 +34,13 @@ func c14GenValue(rt *rapid.T, label string) string {
 	return fmt.Sprintf("%s%d", label, rapid.IntRange(0, 2).Draw(rt, "val"))
 }
 
+// c14GenOptShape draws the shape of the "options" member of a write / patch request: half of the requests carry it
+// only when they present a cas; the others always carry an options object (empty when no cas is presented - what
+// `bao kv put` / `bao kv patch` send without -cas), a sixth of all with an entry the engine does not know.
+func c14GenOptShape(rt *rapid.T) int {
+	return []int{0, 0, 0, 1, 1, 2}[rapid.IntRange(0, 5).Draw(rt, "optionsShape")]
+}
+
 // c14GenOp draws one API operation. base[p] is the current version of path p when the concurrent
 // part starts: cas values and version numbers are drawn around it so that they hit and miss.
 func c14GenOp(rt *rapid.T, nPaths int, base [2]int, id string, prefix bool) *c14Op {
@@ -71,6 +78,7 @@ func c14GenOp(rt *rapid.T, nPaths int, base [2]int, id string, prefix bool) *c14
 				o.data = map[string]any{"p" + id: c14GenValue(rt, "p")}
 			}
 		}
+		o.optShape = c14GenOptShape(rt)
 		c := 0
 		if !prefix {
 			c = rapid.IntRange(0, 19).Draw(rt, "casChoice")
